@@ -525,6 +525,10 @@ class FieldValueSelector:
                                 break
                     else:
                         value = node.string_value
+                except ArithmeticError:
+                    # An out of range value (e.g. an overflow on a year), that is
+                    # already reported by the validation of the node.
+                    value = node.string_value
 
             if value is None:
                 value = self.value_constraints.get(node.name)
